@@ -17,12 +17,13 @@ import (
 )
 
 type hostile struct {
-	kind string     // message kind (signature component)
-	desc string     // full description
-	msgs [][][]byte // one or more messages (segments each)
-	qid  uint32     // question id carried (if hasQ)
-	hasQ bool
-	ends bool // a legal message after which the Conn is expected to shut down (Abort)
+	onFailed bool       // refers to an answer that returned an exception (not yet finished)
+	kind     string     // message kind (signature component)
+	desc     string     // full description
+	msgs     [][][]byte // one or more messages (segments each)
+	qid      uint32     // question id carried (if hasQ)
+	hasQ     bool
+	ends     bool // a legal message after which the Conn is expected to shut down (Abort)
 }
 
 var hostileKinds = []string{
@@ -36,6 +37,8 @@ type hgen struct {
 	r *common.RNG
 	v peerView
 	d []string // description fragments
+
+	onFailed bool // a promisedAnswer / id refers to an answer that returned an exception
 }
 
 func (g *hgen) note(format string, a ...interface{}) {
@@ -75,6 +78,11 @@ func (g *hgen) inQ(forFinish bool) uint32 {
 				return id
 			}
 		case 3:
+			if id, ok := pickFrom(r, g.v.myFailed); ok {
+				g.note("q=failed:%d", id)
+				g.onFailed = true
+				return id
+			}
 			if id, ok := pickFrom(r, g.v.myReturned); ok {
 				g.note("q=returned:%d", id)
 				return id
@@ -642,6 +650,7 @@ func genHostile(r *common.RNG, kind string, v peerView) hostile {
 		h.msgs = append(h.msgs, segs)
 		h.qid, h.hasQ = base.qid, base.hasQ
 	}
+	h.onFailed = g.onFailed
 	h.desc = kind + "[" + joinStrings(g.d, ",") + "]"
 	return h
 }
@@ -673,6 +682,15 @@ func validMessage(r *common.RNG, v peerView) hostile {
 				msgs: [][][]byte{mkCall(fresh, func(t rpccp.MessageTarget) { t.SetImportedCap(exp) }, ifaceID, mEcho, 5, caps)}}
 		}
 	case 2:
+		if q, ok := pickFrom(r, v.myFailed); ok && r.Bool() {
+			return hostile{kind: "call-pipelined-on-failed", qid: fresh, hasQ: true, onFailed: true,
+				msgs: [][][]byte{mkCall(fresh, func(t rpccp.MessageTarget) {
+					pa, _ := t.NewPromisedAnswer()
+					pa.SetQuestionId(q)
+					ops, _ := pa.NewTransform(1)
+					ops.At(0).SetGetPointerField(0)
+				}, ifaceID, mEcho, 6, nil)}}
+		}
 		if q, ok := pickFrom(r, v.myOpen); ok {
 			return hostile{kind: "call-pipelined", qid: fresh, hasQ: true,
 				msgs: [][][]byte{mkCall(fresh, func(t rpccp.MessageTarget) {
